@@ -214,8 +214,8 @@ func cmdConfigs(args []string) {
 			}
 			sim = s
 		}()
-		w.line(fmt.Sprintf(`{"ev":"new","M":%d,"P":%d,"C":%d,"RL":%d,"WL":%d,"L":%d,"D":%d,"ok":%d,"msg":%q}`,
-			m, int(c.Processes), int(c.Cycles), int(c.ReadLimit), int(c.WriteLimit), int(c.Length), int(c.Distance), okv, msg))
+		w.line(fmt.Sprintf(`{"ev":"new","M":%d,"P":%d,"C":%d,"RL":%d,"WL":%d,"L":%d,"D":%d,"mode":%d,"ok":%d,"msg":%q}`,
+			m, int(c.Processes), int(c.Cycles), int(c.ReadLimit), int(c.WriteLimit), int(c.Length), int(c.Distance), int(c.Mode), okv, msg))
 		if okv == 0 {
 			refused++
 			w.nextUnit()
@@ -273,6 +273,9 @@ func cmdBattlesReplay(args []string) {
 			if _, ok := e["L"]; ok {
 				gc.Length, gc.Distance = gmars.Address(jint(e["L"])), gmars.Address(jint(e["D"]))
 			}
+			if _, ok := e["mode"]; ok {
+				gc.Mode = gmars.SimulatorMode(jint(e["mode"]))
+			}
 			var errs string
 			b, errs = newBattleCfg(cfg, gc, *reports)
 			okv := 1
@@ -282,6 +285,9 @@ func cmdBattlesReplay(args []string) {
 			l := fmt.Sprintf(`{"ev":"new","M":%d,"P":%d,"C":%d,"RL":%d,"WL":%d,"ok":%d,"msg":%q`, cfg.M, cfg.P, cfg.C, cfg.RL, cfg.WL, okv, errs)
 			if _, ok := e["L"]; ok {
 				l += fmt.Sprintf(`,"L":%d,"D":%d`, jint(e["L"]), jint(e["D"]))
+			}
+			if _, ok := e["mode"]; ok {
+				l += fmt.Sprintf(`,"mode":%d`, jint(e["mode"]))
 			}
 			w.line(l + "}")
 			ws, offs = nil, nil
